@@ -508,9 +508,14 @@ class SimRunner:
 
     def get_output_for(self, time: Time) -> OutputData:
         assert self.outputs is not None
-        for data_time, value in reversed(self.outputs.items()):
-            if data_time <= time:
-                return value
+        # The cache is not necessarily ordered by time (initial data,
+        # output times in the future), so look for the newest entry.
+        newest = None
+        for data_time in self.outputs:
+            if data_time <= time and (newest is None or data_time > newest):
+                newest = data_time
+        if newest is not None:
+            return self.outputs[newest]
 
         return {}
 
